@@ -952,12 +952,47 @@ func vsRandStrings(res *vResult, types []*vsT, perType int) {
 					class = "noncanonical-accepted/bigint"
 				}
 				if d.consumed == len(b) && len(re) > len(b) && bytes.HasPrefix(re, b) && len(bytes.Trim(re[len(b):], "\x00")) == 0 {
-					class = "zero-filled"
+					// which leaf decoders of the type read several bytes at once (the recorded short-read finding is theirs:
+					// fixed-width integers, compact and big integers, Uint128); a type made of single-byte leaves only
+					// (u8, i8, bool, arrays of them) has no business zero-filling
+					class = "zero-filled/" + vsWideLeaves(t)
 				}
 				res.Fail(-1, i, "rand", "Marshal(decoded) vs consumed prefix", vHex(b[:d.consumed]), vHex(re), "C12/rand/"+class, raw)
 			}
 		}
 	}
+}
+
+// vsWideLeaves names the multi-byte leaf kinds of a type ("wide:u,compact") or "single-byte-leaves-only".
+func vsWideLeaves(t *vsT) string {
+	seen := map[string]bool{}
+	var walk func(x *vsT)
+	walk = func(x *vsT) {
+		if x == nil {
+			return
+		}
+		switch x.K {
+		case "u", "i":
+			if x.N > 1 {
+				seen["int"] = true
+			}
+		case "u128", "compact", "bigint", "bytes", "str":
+			seen[map[string]string{"u128": "int", "compact": "compact", "bigint": "compact", "bytes": "len", "str": "len"}[x.K]] = true
+		case "slice", "map":
+			seen["len"] = true
+		}
+		for _, c := range []*vsT{x.T, x.A, x.B, x.Kt, x.Vt} {
+			walk(c)
+		}
+		for _, f := range x.Fs {
+			walk(f)
+		}
+	}
+	walk(t)
+	if len(seen) == 0 {
+		return "single-byte-leaves-only"
+	}
+	return "has-multi-byte-leaves"
 }
 
 func vsRun(t *testing.T, prop string) {
